@@ -9,6 +9,7 @@ import KojenVerif.Model.EmitPy
 import KojenVerif.Model.EmitCs
 import KojenVerif.Model.EmitSml
 import KojenVerif.Model.PyQueue
+import KojenVerif.Model.Conc
 /-
   Line-protocol driver: one JSON object per input line, one JSON object per output line.
   Run with `lake env lean --run Driver/Main.lean`.  The harness pipes the same inputs to the
@@ -315,6 +316,61 @@ def handle (j : Json) : Except String Json := do
                       ("begun", Json.arr (r.1.begun.map (fun e => Json.arr #[jSrc e.1, Json.num (JsonNumber.fromNat e.2)])).toArray),
                       ("alive", Json.bool r.1.alive), ("queue_len", Json.num (JsonNumber.fromNat r.1.queue.length)),
                       ("stopper", Json.str (match r.1.stopper with | .notCalled => "notCalled" | .joining => "joining" | .returned => "returned"))])
+  | "conc" => do
+    let totals ← (← j.getObjVal? "totals").getArr?
+    let tl ← totals.toList.mapM (fun x => x.getNat?)
+    let nw ← (← j.getObjVal? "nworkers").getNat?
+    let labs ← (← j.getObjVal? "labels").getArr?
+    -- a label is one model step; "wRun w" = worker w takes its enabled steps until none is left
+    let parseLabel (x : Json) : Except String (Sum Conc.Label Nat) := do
+      let a ← x.getArr?
+      match a.toList with
+      | [k] => do
+        match (← k.getStr?) with
+        | "dSet" => pure (.inl .dSet)
+        | "dWake" => pure (.inl .dWake)
+        | "dJoin" => pure (.inl .dJoin)
+        | "dDestroyDerived" => pure (.inl .dDestroyDerived)
+        | o => throw s!"label {o}"
+      | [k, p] => do
+        let n ← p.getNat?
+        match (← k.getStr?) with
+        | "push" => pure (.inl (.push n))
+        | "wCheck" => pure (.inl (.wCheck n))
+        | "wPop" => pure (.inl (.wPop n))
+        | "wTest" => pure (.inl (.wTest n))
+        | "wEnd" => pure (.inl (.wEnd n))
+        | "wRun" => pure (.inr n)
+        | o => throw s!"label {o}"
+      | _ => throw "label"
+    let ls ← labs.toList.mapM parseLabel
+    let sf := Generated.dispatcherStopFirst
+    let wAny (s : Conc.St) (w : Nat) : Option Conc.St :=
+      (Conc.step sf s (.wCheck w)).orElse fun _ => (Conc.step sf s (.wPop w)).orElse fun _ =>
+      (Conc.step sf s (.wTest w)).orElse fun _ => Conc.step sf s (.wEnd w)
+    let rec wRun (s : Conc.St) (w : Nat) (fuel : Nat) : Conc.St :=
+      match fuel with
+      | 0 => s
+      | fuel + 1 => match wAny s w with
+        | some s' => wRun s' w fuel
+        | none => s
+    let rec goC (s : Conc.St) (ls : List (Sum Conc.Label Nat)) (i : Nat) : Conc.St × Option Nat :=
+      match ls with
+      | [] => (s, none)
+      | .inl l :: rest => match Conc.step sf s l with
+        | some s' => goC s' rest (i + 1)
+        | none => (s, some i)
+      | .inr w :: rest => goC (wRun s w (4 * s.queue.length + 8)) rest (i + 1)
+    let r := goC (Conc.init (fun p => tl.getD p 0) nw) ls 0
+    let jItem (e : Conc.Item) : Json := Json.arr #[Json.num (JsonNumber.fromNat e.1), Json.num (JsonNumber.fromNat e.2)]
+    let allExited := (List.range nw).all (fun w => r.1.workers w == .exited)
+    pure (Json.mkObj [("failed_at", match r.2 with | some i => Json.num (JsonNumber.fromNat i) | none => Json.null),
+                      ("begun", Json.arr (r.1.begun.map jItem).toArray),
+                      ("dropped", Json.arr (r.1.dropped.map jItem).toArray),
+                      ("queue", Json.arr (r.1.queue.map jItem).toArray),
+                      ("all_exited", Json.bool allExited), ("derived_alive", Json.bool r.1.derivedAlive),
+                      ("stop_first", Json.bool sf),
+                      ("destroyer", Json.str (match r.1.destroyer with | .alive => "alive" | .flagSet => "flagSet" | .woken => "woken" | .joined => "joined" | .destroyed => "destroyed"))])
   | "runref" => do
     let t ← parseRows (← j.getObjVal? "tt")
     let silent ← getBool j "silent"
